@@ -116,6 +116,18 @@ fn configure(rt: &mut CoreRuntime, v: &Value) {
     if v.get("rom_ro").and_then(|b| b.as_bool()).unwrap_or(false) {
         rt.memory.set_readonly_ranges(vec![(0xC0000, 0xFFFFF)]);
     }
+    // optional RAM overlays [[start,size]..] and a memory card of `card` bytes (stacks placed on their edges)
+    if let Some(ovs) = v.get("overlays").and_then(|o| o.as_array()) {
+        for (i, ov) in ovs.iter().enumerate() {
+            if let (Some(a), Some(n)) = (ov.get(0).and_then(|x| x.as_u64()), ov.get(1).and_then(|x| x.as_u64())) {
+                rt.add_ram_overlay(a as u32, n as usize, &format!("verif_ov{}", i));
+            }
+        }
+    }
+    if let Some(n) = v.get("card").and_then(|x| x.as_u64()) {
+        let data: Vec<u8> = (0..n as usize).map(|i| (i * 7 + 3) as u8).collect();
+        let _ = rt.load_memory_card(&data);
+    }
     if v.get("bare").and_then(|b| b.as_bool()).unwrap_or(false) {
         return; // fresh runtime with only the ROM inserted: everything else must come from the snapshot
     }
